@@ -23,7 +23,7 @@ static char * slurp2(int fd1, int fd2, char ** out2, size_t * n1, size_t * n2) {
 		for (int k = 0; k < 2; k++) {
 			if (p[k].fd >= 0 && (p[k].revents & (POLLIN | POLLHUP | POLLERR))) {
 				char ** b = k ? &b2 : &b1; size_t * n = k ? n2 : n1; size_t * c = k ? &c2 : &c1;
-				if (*n + 65536 > *c) { *c *= 2; *b = realloc(*b, *c); }
+				while (*n + 65536 > *c) { *c *= 2; *b = realloc(*b, *c); }
 				ssize_t r = read(p[k].fd, *b + *n, 65536);
 				if (r <= 0) { close(p[k].fd); p[k].fd = -1; open_--; } else *n += (size_t) r;
 			}
